@@ -1,3 +1,118 @@
+import Witverif.Text.MoonPkg
 import Drivers.Util
-/-! placeholder, replaced by the MoonPkg driver (C30) -/
-def main : IO Unit := pure ()
+/-! Driver for the `MoonPkg` model (C30).
+
+`q <call> <call> …[\t<impl outs>\t<impl final>]`      direct drive of `qualify_package`
+    `<call>` = `hex(this):hex(name)`
+    answer: `<out> <out> …\t<final>` (same format as `moon-run qualify`: `s` | `a:<hex>`;
+    `hex(this)=hex(name):hex(alias),…;…` sorted) and, when the implementation's answer was supplied,
+    `\tspec=<ok|fail|malformed>`: the monitor `MoonSpec.historyOk` on the implementation's outputs.
+
+`g <hex project> <dir>,<dir>,… <pkg>;<pkg>;…`          generated file tree (end-to-end)
+    `<dir>` = hex(generated package directory), `<pkg>` = `hex(dir)=<decl>,…|<used>,…|<expected>,…|<ext>,…`
+    with `<decl>` = `hex(path):hex(alias)` (imports inside the project), `<used>` = hex(alias used in
+    the sources), `<expected>` = `hex(dotted package name):hex(path)` pairs whose path must preserve
+    the name, `<ext>` = `hex(path):hex(alias)` imports from outside the project (alias checks only)
+    answer: per package `<dir hex>=<p><g><k>` flags (`1` ok / `0` fail) for
+    packageOk / graphOk / pathPreserves, then ` all=<ok|fail>`. -/
+open Witverif.Text Witverif.Text.MoonPkg Drivers
+
+def words (s : String) : List String := (s.splitOn " ").filter (· ≠ "")
+
+def parseCall (t : String) : Option (Str × Str) :=
+  match t.splitOn ":" with
+  | [a, b] => match hexToChars a, hexToChars b with
+    | some x, some y => some (x, y)
+    | _, _ => none
+  | _ => none
+
+def showOut : Out → String
+  | .self => "s"
+  | .alias a => "a:" ++ charsToHex a
+  | .diverged => "diverged"
+
+def parseOut (t : String) : Option (Option Str) :=
+  if t == "s" then some none
+  else if t.startsWith "a:" then (hexToChars (t.drop 2).toString).map some
+  else none
+
+def insertSorted (le : α → α → Bool) (x : α) : List α → List α
+  | [] => [x]
+  | y :: ys => if le x y then x :: y :: ys else y :: insertSorted le x ys
+
+def sortBy (le : α → α → Bool) (l : List α) : List α := l.foldr (insertSorted le) []
+
+def showFinal (st : State) : String :=
+  let tables := sortBy (fun a b => leStr a.1 b.1) st
+  ";".intercalate (tables.map fun (this, imp) =>
+    charsToHex this ++ "=" ++ ",".intercalate
+      ((sortBy (fun a b => leStr a.1 b.1) imp.packages).map fun (k, v) => charsToHex k ++ ":" ++ charsToHex v))
+
+def parsePair (t : String) : Option (Str × Str) := parseCall t
+
+def parseFinal (s : String) : Option (List (Str × List (Str × Str))) :=
+  if s == "" then some [] else
+  (s.splitOn ";").mapM fun t =>
+    match t.splitOn "=" with
+    | [a, b] =>
+      match hexToChars a, (if b == "" then some [] else (b.splitOn ",").mapM parsePair) with
+      | some this, some tbl => some (this, tbl)
+      | _, _ => none
+    | _ => none
+
+def handleQ (rest : String) : String :=
+  let parts := rest.splitOn "\t"
+  match (words (parts.headD "")).mapM parseCall with
+  | none => "bad-request"
+  | some calls =>
+    let (st, outs) := run [] calls
+    let model := " ".intercalate (outs.map showOut) ++ "\t" ++ showFinal st
+    match parts with
+    | [_, io, ifin] =>
+      match (words io).mapM parseOut, parseFinal ifin with
+      | some iouts, some fin =>
+        if iouts.length != calls.length then model ++ "\tspec=malformed" else
+        let obs := (calls.zip iouts).map fun c => (c.1.1, c.1.2, c.2)
+        model ++ "\tspec=" ++ (if MoonSpec.historyOk fin obs then "ok" else "fail")
+      | _, _ => model ++ "\tspec=malformed"
+    | _ => model
+
+def parseList (s : String) (f : String → Option α) : Option (List α) :=
+  if s == "" then some [] else (s.splitOn ",").mapM f
+
+def handleG (rest : String) : String :=
+  match words rest with
+  | [proj, dirsS, pkgsS] =>
+    match hexToChars proj, parseList dirsS hexToChars with
+    | some project, some dirs =>
+      let res := (pkgsS.splitOn ";").map fun t =>
+        match t.splitOn "=" with
+        | [d, body] =>
+          match body.splitOn "|" with
+          | [declS, usedS, expS, extS] =>
+            match parseList declS parsePair, parseList usedS hexToChars, parseList expS parsePair,
+                  parseList extS parsePair with
+            | some decl, some used, some exp, some ext =>
+              let p := MoonSpec.packageOk (decl ++ ext) used
+              let g := MoonSpec.graphOk project dirs [decl]
+              let k := exp.all fun (name, path) => MoonSpec.pathPreserves name path
+              some (d, p, g, k)
+            | _, _, _, _ => none
+          | _ => none
+        | _ => none
+      if res.any (·.isNone) then "bad-request"
+      else
+        let rs := res.filterMap id
+        let b (x : Bool) := if x then "1" else "0"
+        " ".intercalate (rs.map fun (d, p, g, k) => d ++ "=" ++ b p ++ b g ++ b k)
+          ++ " all=" ++ (if rs.all (fun (_, p, g, k) => p && g && k) then "ok" else "fail")
+    | _, _ => "bad-request"
+  | _ => "bad-request"
+
+def handle (line : String) : String :=
+  if line.startsWith "q " then handleQ (line.drop 2).toString
+  else if line == "q" then handleQ ""
+  else if line.startsWith "g " then handleG (line.drop 2).toString
+  else "bad-request"
+
+def main : IO Unit := lineLoop handle
